@@ -858,11 +858,16 @@ regp_recv(RegP *p, RPMaybeFrame *mf)
     case EBUSY:
         /* Send EBUSY reply, based on fallback buffer */
         return early_ebusy(p, &fb);
-    case ENOMEM:
-        /* Send ERXOVERFLOW reply, based on fallback buffer */
+    case ENOMEM: {
+        /* Send ERXOVERFLOW reply, based on fallback buffer. The frame was not
+         * parsed, so its start is taken from the block itself: As much of the
+         * header as was stored. */
+        const size_t stored = cs.buffer.used - sizeof(RPFrame);
         byte_buffer_rewind(&fb);
-        byte_buffer_add(&fb, mf->frame->raw.memory, RP_HEADER_SIZE);
+        byte_buffer_add(&fb, cs.buffer.data + sizeof(RPFrame),
+                        stored < RP_HEADER_SIZE ? stored : RP_HEADER_SIZE);
         return early_erxoverflow(p, &fb);
+    }
     default:
         /* Unexpected error. Really shouldn't happen. */
         return -EINVAL;
